@@ -2,6 +2,8 @@ CONSTANTS
   NZooms = 2
   IsBed = TRUE
   HeaderFirst = FALSE
+  Stale = FALSE
+  SkipBlank = FALSE
 SPECIFICATION Spec
 INVARIANTS PrefixSafe Complete
 CHECK_DEADLOCK FALSE
